@@ -16,7 +16,10 @@ def pin(pid):
     txt = re.sub(r"(?m)^\s*Print Assumptions[^\n]*\n", "", txt)
     # drop examples (statement up to the first sentence end)
     txt = re.sub(r"(?s)\bExample\s+[A-Za-z0-9_']+\s*:.*?\.\s*(?=\n)", "", txt)
+    insec = re.search(r"(?m)^\s*Section\b", txt) is not None
     def repl(m):
+        if insec:   # the theorem is generalised over the section variables it uses: pin it by re-proving the statement from it
+            return f"Goal{m.group(2)}.\nProof. apply VF.Properties.{pid}.{m.group(1)}. Qed."
         return f"Check (VF.Properties.{pid}.{m.group(1)} :{m.group(2)})."
     txt = re.sub(r"(?s)\bTheorem\s+([A-Za-z0-9_']+)\s*:(.*?)\.\s*(?=\n|$)", repl, txt)
     out = (f"(* GENERATED ONCE by tools/pin.py from Properties/{pid}.v and committed: the pinned statements. *)\n"
